@@ -64,6 +64,7 @@ def main(argv=None):
     import signal
 
     def _timeout(signum, frame):
+        signal.alarm(30)       # the remaining rules get a short budget each
         raise AnalysisError(prop, 'engine', 'analysis time limit exceeded (term blow-up); fail closed')
     signal.signal(signal.SIGALRM, _timeout)
     signal.alarm(int(os.environ.get('VERIF_TIME_LIMIT', '900' if args.tier == 'thorough' else '300')))
